@@ -1712,8 +1712,12 @@ func (env *LEnv) call(ctx context.Context, fun *LVal, args *LVal) *LVal {
 		// builtin returns.
 		prev := env.evalCtx
 		env.evalCtx = ctx
-		val := fn(env, list)
-		env.evalCtx = prev
+		val := func() *LVal {
+			// Deferred: a panicking builtin is recovered by eval and must
+			// not leave the caller's ctx on env either.
+			defer func() { env.evalCtx = prev }()
+			return fn(env, list)
+		}()
 		if val == nil {
 			return env.Errorf("internal error: builtin %s returned nil", env.GetFunName(fun))
 		}
